@@ -15,12 +15,12 @@ def sh(cmd, cwd=None, timeout=3000, env=None):
 def main():
     args = [a for a in sys.argv[1:] if not a.startswith("--")]
     use_repo = "--repo" in sys.argv
-    kind = "r" if "--refactors" in sys.argv else ("n" if "--round2" in sys.argv else ("q" if "--round3" in sys.argv else ("s" if "--round4" in sys.argv else "m")))
+    kind = "r" if "--refactors" in sys.argv else ("n" if "--round2" in sys.argv else ("q" if "--round3" in sys.argv else ("s" if "--round4" in sys.argv else ("t" if "--round5" in sys.argv else "m"))))
     pid = args[0]
     sd = "/verif/seeded/%s" % pid
     ks = args[1:] or sorted(d[1:] for d in os.listdir(sd) if d.startswith(kind) and d[1:].isdigit() and os.path.exists("%s/%s/patch.diff" % (sd, d)))
     results = {}
-    rp = os.path.join(sd, {"m": "results.json", "r": "refactors.json", "n": "results_round2.json", "q": "results_round3.json", "s": "results_round4.json"}[kind])
+    rp = os.path.join(sd, {"m": "results.json", "r": "refactors.json", "n": "results_round2.json", "q": "results_round3.json", "s": "results_round4.json", "t": "results_round5.json"}[kind])
     if os.path.exists(rp):
         results = json.load(open(rp))
     if use_repo:
